@@ -39,6 +39,7 @@ class Layer:
         self.steps = []
         self.crash_at = None
         self.root = None
+        self.bufsize = None      # None: what open() would choose; an int: that buffer size
 
     def start(self, root, crash_at):
         self.active, self.dead, self.steps, self.crash_at, self.root = True, False, [], crash_at, root
@@ -105,7 +106,15 @@ def rec_open(path, mode="r", *a, **kw):
         except Crash:
             raw.close()
             raise
-    return io.BufferedRandom(raw) if "+" in m else io.BufferedWriter(raw)
+    bs = L.bufsize
+    if bs is None:
+        # builtins.open(): the device block size, else io.DEFAULT_BUFFER_SIZE
+        bs = getattr(raw, "_blksize", 0)
+        if sys.version_info >= (3, 13):
+            bs = max(min(bs, 8 * 1024 * 1024), io.DEFAULT_BUFFER_SIZE)
+        if bs <= 1:
+            bs = io.DEFAULT_BUFFER_SIZE
+    return io.BufferedRandom(raw, buffer_size=bs) if "+" in m else io.BufferedWriter(raw, buffer_size=bs)
 
 
 class OsProxy:
@@ -305,8 +314,30 @@ def scenarios(rng, tier):
             writers[0].close()
         out.append(("imm_upload", False, ["final/iA/0", "final/iA/1"], {"final/iA/0": list(d0), "final/iA/1": list(d1)}, setup, op))
 
+    # ---- allocate_buckets on a bucket that already holds a share: the existing share only receives the new lease
+    for rep in range(1 if quick else 4):
+        size = rng.randint(5, 16)
+        d0, d1, other = rbytes(rng, size), rbytes(rng, size), rbytes(rng, 7)
+        nl = rng.randint(1, 3)
+
+        def setup(ss, d0=d0, other=other, nl=nl):
+            upload(ss, "iB", {0: other}, "iB-up")
+            upload(ss, "iA", {0: d0}, "lease0")
+            for k in range(1, nl):
+                tick()
+                ss.add_lease(SI["iA"], *secrets("lease%d" % k))
+            tick()
+
+        def op(ss, d1=d1, size=size):
+            rs, cs = secrets("second-uploader")
+            already, writers = ss.allocate_buckets(SI["iA"], rs, cs, {0, 1}, size)
+            assert already == {0} and set(writers) == {1}
+            writers[1].write(0, d1)
+            writers[1].close()
+        out.append(("imm_allocate_existing", False, ["final/iA/1"], {"final/iA/1": list(d1)}, setup, op))
+
     # ---- immutable add_lease / renew_lease on shares holding n leases
-    for n in ([1, 2, 5] if quick else [1, 2, 3, 4, 5, 1, 3, 5]):
+    for n in ([1, 2, 3, 5] if quick else [1, 2, 3, 4, 5, 1, 3, 5]):
         d0, d1, other = rbytes(rng, rng.randint(4, 16)), rbytes(rng, rng.randint(4, 16)), rbytes(rng, 5)
         two = rng.random() < 0.6
 
@@ -326,6 +357,19 @@ def scenarios(rng, tier):
         def op_renew(ss, k=k):
             ss.renew_lease(SI["iA"], secrets("lease%d" % k)[0])
         out.append(("imm_renew_lease", True, ["final/iA/0", "final/iA/1"], {}, setup, op_renew))
+
+    # ---- the same on a share larger than Python's file buffer (default buffering only)
+    for rep in range(1 if quick else 2):
+        big = rbytes(rng, 4200 + rng.randint(0, 300))
+
+        def setup(ss, big=big):
+            upload(ss, "iB", {0: b"other"}, "iB-up")
+            upload(ss, "iA", {0: big}, "lease0")
+            tick()
+
+        def op_add(ss):
+            ss.add_lease(SI["iA"], *secrets("lease-new"))
+        out.append(("imm_add_lease", True, ["final/iA/0", "final/iA/1"], {}, setup, op_add, "os"))
 
     # ---- mutable: creation of two shares
     for rep in range(1 if quick else 3):
@@ -349,7 +393,7 @@ def scenarios(rng, tier):
             tick()
         return setup
 
-    for n in ([1, 4, 5] if quick else [1, 2, 3, 4, 5, 6, 4, 5]):
+    for n in ([1, 3, 4, 5] if quick else [1, 2, 3, 4, 5, 6, 4, 5]):
         d0, d1, other = rbytes(rng, rng.randint(5, 30)), rbytes(rng, rng.randint(5, 30)), rbytes(rng, 9)
         setup = msetup(n, d0, d1, other)
 
@@ -362,7 +406,7 @@ def scenarios(rng, tier):
             ss.renew_lease(SI["mA"], secrets("mlease%d" % k)[0])
         out.append(("mut_renew_lease", True, ["final/mA/0", "final/mA/1"], {}, setup, op_renew))
 
-    for n in ([6] if quick else [5, 6, 7, 1, 6]):
+    for n in ([6, 5] if quick else [5, 6, 7, 1, 6]):
         L0 = rng.randint(8, 30)
         d0, d1, other = rbytes(rng, L0), rbytes(rng, rng.randint(5, 30)), rbytes(rng, 9)
         setup = msetup(n, d0, d1, other)
@@ -446,7 +490,19 @@ def main():
     work = tempfile.mkdtemp(prefix="crashrun")
     traces = []
     try:
-        for sn, (kind, lease_only, targets, expect, setup, op) in enumerate(scenarios(rng, a.tier)):
+        runs = []
+        for sc in scenarios(rng, a.tier):
+            if len(sc) == 7:
+                runs.append(sc)
+            elif sc[0] in ("imm_add_lease", "imm_renew_lease", "imm_allocate_existing", "mut_add_lease", "mut_grow"):
+                runs.append(sc + ("os",))
+                runs.append(sc + ("small",))
+            else:
+                runs.append(sc + (rng.choice(["os", "small"]),))
+        for sn, (kind, lease_only, targets, expect, setup, op, bufmode) in enumerate(runs):
+            # "small": a 64-byte buffer stands for shares much larger than the buffer (seeks leave it);
+            # "os": the buffer open() would use (whole small containers fit, consecutive writes coalesce)
+            L.bufsize = 64 if bufmode == "small" else None
             vr.rightNow = 1000000.0 + 5000 * sn
             base = tempfile.mkdtemp(prefix="base", dir=work)
             ss = new_server(base)
@@ -465,7 +521,8 @@ def main():
                 if steps != steps_full[:i]:
                     raise SystemExit("non-deterministic step sequence in %s at %d" % (kind, i))
                 traces.append({"consts": {"op": kind, "scenario": sn, "lease_only": lease_only, "targets": targets, "paths": PATHS,
-                                          "fs0": fs0, "steps": steps, "expect": expect, "crash_at": i, "nsteps": n,
+                                          "fs0": fs0, "steps": steps, "expect": expect,
+                                          "lease_targets": ["final/iA/0"] if kind == "imm_allocate_existing" else [], "crash_at": i, "nsteps": n, "bufmode": bufmode,
                                           "completed": bool(completed)},
                                "events": [{"obs": obs}]})
             shutil.rmtree(base, ignore_errors=True)
